@@ -324,6 +324,9 @@ func init() {
 				cs = append(cs, Case{Kind: "head", P: []int64{int64(hw)}})
 			}
 			cs = append(cs, Case{Kind: "lens"})
+			for i := 0; i < 12; i++ {
+				cs = append(cs, Case{Kind: "multi", Seed: h.Mix(seed, 0xC14C, uint64(i))})
+			}
 			return cs
 		},
 		Run: runC14,
@@ -417,6 +420,62 @@ func runC14(c Case, tier string) (res CaseResult) {
 			}
 			c14Check(&res, h.Istanbul, h.Pick(h.NewRNG(uint64(l)), c14Kinds), common.BytesToAddress([]byte{byte(100 + l%3)}), canon[:min(l, len(canon))], 1, 100000, false)
 			n += 4
+		}
+	case "multi":
+		// several different contracts write through 0x66 within ONE EVM instance (also across two transactions):
+		// each write must be recorded under the contract whose CALL reached the precompile
+		r := h.NewRNG(c.Seed)
+		depth := 2 + r.Intn(3)
+		fork := h.Pick(r, c14Forks)
+		codes := make([][]byte, depth)
+		for i := 0; i < depth; i++ {
+			a := h.NewAsm()
+			a.Op(h.CALLDATASIZE).PushU(0).PushU(0).Op(h.CALLDATACOPY)
+			writeFirst := r.Bool()
+			write := func() {
+				a.PushU(0).PushU(0).Op(h.CALLDATASIZE).PushU(0).PushU(0).PushAddr(addrCtxWrite).PushU(100000).Op(h.CALL, h.POP)
+			}
+			if writeFirst {
+				write()
+			}
+			if i+1 < depth {
+				a.PushU(0).PushU(0).Op(h.CALLDATASIZE).PushU(0).PushU(0).PushAddr(h.ContractAddr(i+1)).PushU(3_000_000).Op(h.CALL, h.POP)
+			}
+			if !writeFirst || r.Bool() {
+				write()
+			}
+			a.Op(h.STOP)
+			codes[i] = a.Bytes()
+		}
+		fs := h.NewForkSession(h.BaseWorld(codes), h.EnvSpec{Fork: fork}, h.ForkOpts{Debug: true, RecSteps: true, LightMem: true})
+		payload := abibytes.Encode([]byte("who"), r.Bytes(1+r.Intn(40)))
+		desc := fmt.Sprintf("fork=%s %d contracts each writing through 0x66 in one EVM, two transactions", fork, depth)
+		for txn := 0; txn < 2; txn++ {
+			start := len(fs.L.Events)
+			ir := fs.Invoke(h.TxSpec{Entry: h.ECall, From: h.Sender, To: h.ContractAddr(txn % depth), Input: payload, Gas: 9_000_000})
+			n++
+			if ir.Panic != "" {
+				res.Fail(Key("panic", "0x66", "multi"), "panic: "+firstLine(ir.Panic), desc, clip(ir.PanicStk, 1500))
+				break
+			}
+			// expected writers: the From of every Enter to 0x66, in order
+			var want, got []common.Address
+			for i := start; i < len(fs.L.Events); i++ {
+				e := &fs.L.Events[i]
+				if e.K == h.KEnter && e.To == addrCtxWrite {
+					want = append(want, e.From)
+				}
+				if e.K == h.KCtxSet {
+					got = append(got, e.Addr)
+				}
+			}
+			res.Count("calls", int64(len(want)))
+			res.Count("valid_payloads", int64(len(want)))
+			res.Count("multi_writer_writes", int64(len(want)))
+			if fmt.Sprint(want) != fmt.Sprint(got) {
+				res.Fail(Key("wrong-attribution", "multi-writer"), "context writes were recorded under other addresses than the contracts whose calls reached the precompile", desc, fmt.Sprintf("callers:  %v", want), fmt.Sprintf("recorded: %v", got))
+			}
+			res.Shape("multi", depth, fork, len(want))
 		}
 	}
 	res.Evals = n
